@@ -119,7 +119,7 @@ def main():
                 continue
             r = subprocess.run([os.path.join(verif, ".build/alt-" + tag, "w_c06"), "quick"],
                                env=dict(env, VERIF_ROOT=root), capture_output=True, text=True)
-            keys = sorted(set(re.findall(r"key=(\S+)", r.stdout)))
+            keys = sorted(set(re.findall(r"\[C06\]\s+key=(\S+) :", r.stdout)))
             verdict = "CAUGHT" if r.returncode == 1 else "MISSED(exit %d)" % r.returncode
             results.append((n, verdict, keys[:6]))
             print("%-75s %s  %d keys e.g. %s" % (n, verdict, len(keys), "; ".join(keys[:3])), flush=True)
